@@ -65,6 +65,7 @@ var c01Classes = []payloadClass{
 	}},
 	// XL classes: beyond the block / window sizes of the compression libraries (zstd block 128 KiB,
 	// windows of 1 MiB and more). Only used where compression implementations meet (C02, C07).
+	{"XL-16380B-incompressible", func(c int) []byte { return fixture.LCG(uint64(c+10), 16380) }}, // just below the 16 KiB scratch buffers of the block writer
 	{"XL-131073B-compressible", func(c int) []byte { return fixture.Compressible(uint64(c+11), 131073) }},
 	{"XL-1200000B-half-half", func(c int) []byte {
 		return append(fixture.Compressible(uint64(c+12), 600000), fixture.LCG(uint64(c+13), 600000)...)
@@ -225,7 +226,21 @@ func c01Run(x *explore.Ctx) {
 			}
 		}
 		if open == nil {
-			open = gpfile.NewDirWriter(base, b.ts, opts...)
+			// a session may be written by a process configured with another encoder (restart with a changed
+			// configuration): the column files then hold blocks of several encoder types
+			sopts := opts
+			if alt := x.Deviate(3, fmt.Sprintf("session-encoder@%d", i)); alt > 0 {
+				others := []encoders.Type{encoders.EncoderTypeLZ4, encoders.EncoderTypeZSTD, encoders.EncoderTypeNull}
+				var o []encoders.Type
+				for _, t := range others {
+					if t != enc.t {
+						o = append(o, t)
+					}
+				}
+				sopts = []gpfile.Option{gpfile.WithEncoderTypeLevel(o[alt-1], 0)}
+				x.Nontrivial("mixed %d/%d %d %d %d->%d", enc.t, enc.level, n, split, i, o[alt-1])
+			}
+			open = gpfile.NewDirWriter(base, b.ts, sopts...)
 			openDay = day
 			if err := open.Open(); err != nil {
 				x.Fail("open-error", "Open for write failed: %v", err)
@@ -329,6 +344,20 @@ func c01Verify(x *explore.Ctx, base string, written map[int64][]c01Block, when s
 						}
 					}
 				}
+				// blocks are also addressed out of order (a query restricted to the end of the day, then another one)
+				for i := len(want) - 1; i >= 0 && len(want) > 1; i-- {
+					for c := types.ColumnIndex(0); c < types.ColIdxCount; c++ {
+						got, err := d.ReadBlockAtIndex(c, i)
+						if err != nil {
+							x.Fail("read-error:reverse-order", "%s: day %d block %d col %d (%s, blocks read in reverse order; stored enc %v): %v", when, day, i, c, label, d.BlockMetadata[c].BlockList[i].EncoderType, err)
+							return false
+						}
+						if !bytes.Equal(got, want[i].data[c]) {
+							x.Fail("read-mismatch:reverse-order", "%s: day %d block %d col %d (%s, blocks read in reverse order): %d bytes read back differ from the %d bytes written", when, day, i, c, label, len(got), len(want[i].data[c]))
+							return false
+						}
+					}
+				}
 				return true
 			}()
 			d.Close()
@@ -366,7 +395,7 @@ func c01Suffix(base string, day int64) (string, error) {
 func init() {
 	register("C01", &explore.Scenario{
 		ID: "C01", Name: "GPDir block round trip over sessions, payload classes, encoders", Level: "exploration",
-		Rule: "cases = encoder (x level in thorough: every lz4 level 0-12 and zstd level 0-19; in quick the level is a deviation {default,1,max}) x number of block writes 1..3 (thorough 4) x {one day, last block on the next day}; per case every split into open/write/close sessions; per block a payload class deviation (thorough: 12 classes incl. incompressible 4000/4096/4097/6000/70000 B, each applied to all 8 columns or to one column; quick: 9 classes, 11 alternatives), traffic and counter deviations; <= bound deviations. After every Close three fresh readers (plain name, name+suffix, suffix+read-all pool) compare block count, timestamps, all 8 columns byte-for-byte, per-block traffic, day stats and suffix-decoded stats. non-trivial = histories containing an incompressible or >4KiB payload, distinct by (encoder, level, n, split, class, position)",
+		Rule: "cases = encoder (x level in thorough: every lz4 level 0-12 and zstd level 0-19; in quick the level is a deviation {default,1,max}) x number of block writes 1..3 (thorough 4) x {one day, last block on the next day}; per case every split into open/write/close sessions, per session an encoder deviation (the session is written with one of the two other encoder types, as after a restart with a changed configuration); per block a payload class deviation (thorough: 12 classes incl. incompressible 4000/4096/4097/6000/70000 B, each applied to all 8 columns or to one column; quick: 9 classes, 11 alternatives), traffic and counter deviations; <= bound deviations. After every Close three fresh readers (plain name, name+suffix, suffix+read-all pool) compare block count, timestamps, all 8 columns byte-for-byte (blocks read in order and then in reverse order), per-block traffic, day stats and suffix-decoded stats. non-trivial = histories containing an incompressible or >4KiB payload, distinct by (encoder, level, n, split, class, position)",
 		Cases: func(t string) int {
 			if t == "thorough" {
 				return len(c01Encoders(t)) * 4 * 2
